@@ -7,7 +7,9 @@ from .. import core, gramrun, gen_core as G
 ELEMS = [('lit', 'a'), ('seq', ('lit', 'a'), ('lit', 'b')), ('left', ('lit', 'a'), ('expect', ('lit', 'b'))),
          ('ref', 'X'), ('rx', '[ab]')]
 SEPS = [('lit', ','), ('seq', ('lit', ','), ('lit', ';')), ('rx', '[,;]'),
-        ('left', ('lit', ','), ('expect', ('lit', 'a')))]
+        ('left', ('lit', ','), ('expect', ('lit', 'a'))),
+        # separators whose VALUE is falsy when they match nothing (None, '', []): kept separators are values, not flags
+        ('opt', ('lit', ',')), ('rx', ',?'), ('rep', ('lit', ','), None, None), ('expectnot', ('lit', ';'))]
 PRELUDE = 'X = "a" | "ba"\nN = /\\d/ |> `int`\n'
 
 
